@@ -30,6 +30,16 @@ impl<A: Actor> Receiver<A> {
     }
 }
 
+impl<A: Actor> Drop for Receiver<A> {
+    fn drop(&mut self) {
+        // The channel keeps queued items alive until the last sender is gone.
+        // Nobody will handle them any more: drop them now, so that a queued
+        // call does not keep its reply port open, and its caller waiting, for
+        // as long as any handle to the mailbox exists.
+        self.messages.drain().for_each(drop);
+    }
+}
+
 pub(crate) enum MailboxEvent<A: Actor> {
     Message(Delivering<A>),
     Stop,
